@@ -367,6 +367,7 @@ Record snap := {
   s_queue : list handle;                         (* the real loop's ready queue, classified *)
   s_jdone : bool;                                (* the joining task is done() *)
   s_cancelreq : list N;                          (* unfinished members with a cancellation request *)
+  s_jcancelled : bool;                           (* the joining task ended cancelled *)
 }.
 Definition cb_eqb (a b : cb) : bool :=
   match a, b with OnDone x, OnDone y | Pop x, Pop y => N.eqb x y | _, _ => false end.
@@ -381,7 +382,8 @@ Definition snap_ok (g : tg) (s : snap) : bool :=
   set_eqb (map fst (filter (fun x => match m_status (snd x) with Fin _ => true | _ => false end) (members g))) (s_finished s) &&
   list_eqb handle_eqb (queue g) (s_queue s) &&
   Bool.eqb (match pc g with JEnded _ _ _ => true | _ => false end) (s_jdone s) &&
-  set_eqb (map fst (filter (fun x => match m_status (snd x) with RunC => true | _ => false end) (members g))) (s_cancelreq s).
+  set_eqb (map fst (filter (fun x => match m_status (snd x) with RunC => true | _ => false end) (members g))) (s_cancelreq s) &&
+  Bool.eqb (match pc g with JEnded c _ _ => c | _ => false end) (s_jcancelled s).
 
 Fixpoint trace_firstbad (g : tg) (tr : list (label * option snap)) (i : nat) : option nat :=
   match tr with
